@@ -9,7 +9,7 @@ EXPLANATION = ('Static rules on the five subject types (instances of the same ma
                'one live range of the `observers` guard; J2 every notification first moves the waiting subscribers from the side list into '
                'the live list (load) and subscribe only ever pushes into the side list; J3 terminals take() the live list, unsubscribe takes '
                'both lists, is_finished/is_closed answer "live list is None", subscribing to an unsubscribed subject yields an empty '
-               'subscriber; J4 the terminal broadcast skips closed subscribers; J5 the stored subscriber handle delivers under its slot guard and never re-fills its slot (unsubscribe-one is effective and final). Decides the mechanism behind "a subscriber added during an '
+               'subscriber; J4 the terminal broadcast skips closed subscribers; J6 the live list is not edited during a broadcast (every present subscriber is visited once); J5 the stored subscriber handle delivers under its slot guard and never re-fills its slot (unsubscribe-one is effective and final). Decides the mechanism behind "a subscriber added during an '
                'emission does not see the in-flight item"; does not decide exactly-once delivery over join/leave histories.')
 ASSUMPTIONS = ['SmallVec keeps insertion order; RefCell/Mutex guards give exclusive access']
 
@@ -94,6 +94,13 @@ def check(cx):
                                    'whole broadcast inside one live range of the observers guard' if ok else
                                    'the broadcast is not inside a single critical section of `observers` (%d guard ranges, %d calls): concurrent emitters could interleave per subscriber' % (len(guards), len(pubs)),
                                    fn['span'], [node_desc(g, n) for n in pubs[:3]]))
+                # J6: a broadcast visits every live subscriber: the live list is not edited while a notification is delivered
+                edits = [n for n in g.nodes if n['kind'] == 'call' and n['args'] and recv_class(n['args'][0]) == 'self.' + LIVE and not any(c[2].endswith('::load') for c in n['ctx'])
+                         and n['name'].rsplit('::', 1)[-1] in ('remove', 'swap_remove', 'retain', 'retain_mut', 'truncate', 'pop', 'insert', 'clear', 'dedup', 'split_off')]
+                res.append(Finding(ID, 'J6', label, not edits,
+                                   'the live list is only iterated / taken while notifying' if not edits else
+                                   'the live list is edited (%s) during the broadcast: the subscriber that moves into the edited position is skipped (or visited twice) for this notification' % edits[0]['name'].rsplit('::', 1)[-1],
+                                   g.loc(edits[0]) if edits else fn['span']))
                 # J2: load first
 
                 def ev(n):
@@ -180,7 +187,22 @@ def check(cx):
                     held = lock_scopes(g)
                     acq = [n for n in g.nodes if n['kind'] == 'call' and n['name'] in ('rc::RcDeref::rc_deref', 'rc::RcDerefMut::rc_deref_mut') and n['args'] and recv_class(n['args'][0]) == 'self.' + WAIT]
                     atomic = bool(acq) and all(any(h[1] == 'self.' + LIVE for h in held[n['id']]) for n in acq)
-                    ok = bool(moves) and atomic
+                    # the waiting subscribers flow, wholesale, to exactly one place: the append/extend into the live list
+                    from ..expr import is_transparent, walk
+                    srcs = set()
+                    for m_ in moves:
+                        for a_ in m_['args'][1:]:
+                            for e_ in walk(a_):
+                                if e_[0] == 'call' and not is_transparent(e_[1]) and e_[1].rsplit('::', 1)[-1] in ('drain', 'rc_deref_mut', 'rc_deref', 'take', 'split_off'):
+                                    srcs.add(e_)
+                    consumers = [n for n in g.nodes if n['kind'] == 'call' and not is_transparent(n['name']) and n['name'].rsplit('::', 1)[-1] not in ('drop', 'len', 'is_empty', 'unwrap', 'expect', 'as_mut', 'as_ref', 'deref', 'deref_mut', 'as_mut_slice', 'borrow_mut', 'unwrap_unchecked')
+                                 and any(any(strip(e_) in {strip(s_) for s_ in srcs} for e_ in walk(a_)) for a_ in n['args']) and n['value'] not in srcs]
+                    linear = len(consumers) <= len(moves)
+                    ok = bool(moves) and atomic and linear
+                    if bool(moves) and atomic and not linear:
+                        res.append(Finding(ID, 'J2', cx.label(fn) + '|linear', False,
+                                           'the waiting subscribers are consumed at %d places besides the move into the live list (e.g. %s): a subscriber pulled out there and not stored is lost' % (
+                                               len(consumers) - len(moves), consumers[0]['name']), g.loc(consumers[0])))
                     res.append(Finding(ID, 'J2', cx.label(fn), ok,
                                        'load() moves the chamber into the live list under the observers guard' if ok else
                                        ('load() no longer moves the waiting subscribers' if not moves else
